@@ -1,4 +1,5 @@
 """witness search after a failed obligation: drive the real crate against the executable twin of the spec"""
+import os
 import time
 
 from vx import twin
@@ -65,7 +66,28 @@ def eqhash_witness(prop, failures, repo, verif, workdir, seed, log):
     return {"found": False, "inputs_tried": r["tried"], "search_s": round(time.time() - t0, 1)}
 
 
+def wildmap_witness(prop, failures, repo, verif, workdir, seed, log):
+    t0 = time.time()
+    try:
+        binary = twin.build(repo, verif, workdir, log)
+    except Exception as e:
+        return {"found": False, "error": str(e)[:600]}
+    # only a panic of the kind the failed obligation names counts (arith-overflow -> "overflow")
+    rx = "overflow" if any("overflow" in f.name for f in failures) else ""
+    os.environ["TWIN_PANIC_RX"] = rx
+    r = twin.run(binary, ["search-wildmap", seed + 1, 60000])
+    os.environ.pop("TWIN_PANIC_RX", None)
+    if r["found"]:
+        log(f"  witness (search-wildmap, {r['tried']} wild maps tried): {r['detail']}")
+        return {"found": True, "kind": r["kind"], "input": r["input"], "detail": r["detail"], "inputs_tried": r["tried"], "search_s": round(time.time() - t0, 1),
+                "replays_on": "real crate built from the checked tree: ReplaceSource over SourceMapSource with a wild map, map()/source() through the public API"}
+    log(f"  witness search: no panic among {r['tried']} wild maps")
+    return {"found": False, "inputs_tried": r["tried"], "search_s": round(time.time() - t0, 1)}
+
+
 def mixed_witness(prop, failures, repo, verif, workdir, seed, log):
+    if any("replace_helpers" in f.name for f in failures):
+        return wildmap_witness(prop, failures, repo, verif, workdir, seed, log)
     if any("replace_" in f.name for f in failures):
         return replace_witness(prop, failures, repo, verif, workdir, seed, log)
     return codec_witness(prop, failures, repo, verif, workdir, seed, log)
@@ -78,7 +100,7 @@ def replay(prop, path, repo, verif, workdir, log):
     if not w.get("found"):
         return None
     binary = twin.build(repo, verif, workdir, log)
-    kind = {"enc": "replay-enc", "lines": "replay-lines", "dec": "replay-dec", "replace": "replay-replace", "eqhash": "replay-eqhash"}[w["kind"]]
+    kind = {"enc": "replay-enc", "lines": "replay-lines", "dec": "replay-dec", "replace": "replay-replace", "eqhash": "replay-eqhash", "wildmap": "replay-wildmap"}[w["kind"]]
     inp = w["input"]
     if w["kind"] == "dec":
         import ast
